@@ -45,7 +45,7 @@ class C02(Check):
                        "feat:repeated-key", "feat:qudit-measure", "feat:classical-control", "feat:sympy-condition",
                        "feat:bitmask-condition", "feat:indexed-condition", "feat:pauli-measure", "feat:reset", "feat:subcircuit", "feat:subcircuit-key-map", "feat:subcircuit-rep-ids",
                        "sim:sv", "sim:dm", "sim:clifford", "sim:stab-sampler", "entry:run", "entry:simulate",
-                       "entry:steps", "entry:sample", "entry:run_sweep", "entry:sweep-from-state", "entry:direct-functions", "direct:sample_from_amplitudes", "direct:measure_density_matrix", "gen:deep-clifford", "init:vector", "init:int", "order:permuted", "order:spectator"]
+                       "entry:steps", "entry:sample", "entry:run_sweep", "entry:sweep-from-state", "entry:direct-functions", "entry:step-sampling", "step-sampling:integer-seed", "direct:sample_from_amplitudes", "direct:measure_density_matrix", "gen:deep-clifford", "init:vector", "init:int", "order:permuted", "order:spectator"]
 
     def setup(self) -> None:
         from simkit import repoenv
@@ -65,6 +65,8 @@ class C02(Check):
             return self._sweep_from_state(tape, ctx)
         if tape.chance(1, 12, "direct-functions?"):
             return self._direct_functions(tape, ctx)
+        if tape.chance(1, 12, "step-sampling?"):
+            return self._step_sampling(tape, ctx)
         clifford = tape.chance(1, 5, "clifford-circuit?")
         deep_clifford = clifford and tape.chance(1, 2, "deep-clifford?")
         g = qgen.Gen(tape, clifford_only=clifford, allow_channels=False, allow_qudits=not clifford,
@@ -293,6 +295,116 @@ class C02(Check):
         ctx.state(("direct", fn, tuple(dims), len(indices), out_mode))
         ctx.sample = {"entry": f"cirq.{fn}", "dims": dims, "indices": indices, "repetitions": reps,
                       "out": ["None", "buffer", "in place"][out_mode], "leaves_explored": len(leaves)}
+
+    def _step_sampling(self, tape, ctx: Ctx) -> None:
+        """StepResult.sample / StepResult.sample_measurement_ops called by the user on the state after a
+        moment, with the seed forms the API accepts: a generator object or an integer.  An integer seed is
+        one pseudo-random stream (engines.scripted_prng.int_seeds_scripted): over the seeds, the sampled
+        values must still be Born-distributed, jointly over all sampled qubits and repetitions."""
+        cirq = self.cirq
+        sp = __import__("engines.scripted_prng", fromlist=["x"])
+        qref = __import__("engines.qref", fromlist=["x"])
+        ctx.probe("entry:step-sampling")
+        g = self.qgen.Gen(tape, allow_measure=False, allow_control=False, allow_reset=False,
+                          allow_pauli_measure=False, max_qudits=4, max_ops=6)
+        circuit = g.circuit()
+        for q in g.qudits:
+            if q not in circuit.all_qubits():
+                circuit.append(cirq.I(q) if q.dimension == 2 else cirq.IdentityGate(qid_shape=(q.dimension,)).on(q))
+        qs = sorted(circuit.all_qubits())
+        kind = "dm" if tape.chance(1, 3, "dm?") else "sv"
+        split = not tape.chance(1, 4, "no-split?")
+        dtype = np.complex128 if tape.chance(1, 2, "dtype128?") else np.complex64
+        cfg = self.qdrive.SimConfig(kind, dtype=dtype, split=split)
+        at = tape.draw(len(circuit), "after-moment")
+        prefix = cirq.Circuit(circuit[:at + 1])
+        for q in qs:
+            if q not in prefix.all_qubits():
+                prefix.append(cirq.I(q) if q.dimension == 2 else cirq.IdentityGate(qid_shape=(q.dimension,)).on(q))
+        api = tape.draw(2, "api")
+        int_seed = tape.chance(2, 3, "integer-seed?")
+        seed_value = [0, 5, 1234567][tape.draw(3, "seed-value")]
+        reps = 1 + tape.draw(2, "reps")
+        if api == 0:
+            k = 1 + tape.draw(len(qs), "n-sampled")
+            sampled = tape.shuffle(list(qs), "sampled")[:k]
+            mops = [cirq.measure(*sampled, key="s")]
+        else:
+            mops = []
+            for i in range(1 + tape.draw(3, "n-measure-ops")):
+                k = 1 + tape.draw(min(2, len(qs)), "m-width")
+                targets = tape.shuffle(list(qs), "m-qubits")[:k]
+                inv = tuple(bool(tape.draw(2, "invert")) for _ in targets) if tape.chance(1, 3, "invert?") else ()
+                cmap = {}
+                if tape.chance(1, 3, "confusion?"):
+                    d = targets[0].dimension
+                    rows = []
+                    for r in range(d):
+                        wts = [1 + tape.draw(4, "cm-w") for _ in range(d)]
+                        rows.append([x / sum(wts) for x in wts])
+                    cmap = {(0,): np.array(rows)}
+                mops.append(cirq.MeasurementGate(qid_shape=tuple(q.dimension for q in targets), key=f"m{i}",
+                                                 invert_mask=inv, confusion_map=cmap).on(*targets))
+        # reference: the measurements applied one after the other to the state after the moment
+        ref_c = prefix + cirq.Circuit(cirq.Moment(op) for op in mops)
+        branches = qref.QRef(qs).run(ref_c, 0)
+        p_ref = {k: v[0] for k, v in qref.merge_by_records(branches).items()}
+
+        def rows_of(res, r):
+            if api == 0:
+                return ((("s", (tuple(int(x) for x in res[r]),)),), ())
+            return (tuple((key, (tuple(int(x) for x in res[key][r]),)) for key in sorted(res)), ())
+
+        def leaf(prng):
+            sim = cfg.make(prng)
+            step = None
+            for i, st in enumerate(sim.simulate_moment_steps(prefix, qubit_order=qs)):
+                step = st
+            with sp.int_seeds_scripted(prng) as fam:
+                seed = seed_value if int_seed else prng
+                if api == 0:
+                    res = step.sample(sampled, repetitions=reps, seed=seed)
+                else:
+                    res = step.sample_measurement_ops(mops, repetitions=reps, seed=seed)
+            return tuple(rows_of(res, r) for r in range(reps)), fam.made, fam.replayed
+
+        try:
+            leaves = sp.explore(leaf, 600)
+        except sp.TreeTooLarge:
+            ctx.probe("tree-too-large")
+            return
+        except sp.UnmodelledSeedReuse:
+            ctx.probe("step-sampling:unmodelled-seed-reuse")
+            return
+        tol = cfg.tol()
+        w = {}
+        made = replayed = 0
+        for wt, (keys, m, rp), _t in leaves:
+            w[keys] = w.get(keys, 0.0) + wt
+            made, replayed = max(made, m), max(replayed, rp)
+        if int_seed:
+            ctx.probe("step-sampling:integer-seed")
+            if replayed:
+                ctx.fault("integer-seed-stream-reuse")
+        what = (f"StepResult.{'sample' if api == 0 else 'sample_measurement_ops'}(..., repetitions={reps}, "
+                f"seed={seed_value if int_seed else '<generator>'}) [{cfg.describe()}]")
+        n = len(leaves)
+        if abs(sum(w.values()) - 1.0) > tol * max(4, n):
+            raise Violation(f"{P}-DIST", f"{what}: leaf weights sum to {sum(w.values()):.9f}\n{ref_c}")
+        for keys, wt in sorted(w.items()):
+            expect = 1.0
+            for k in keys:
+                expect *= p_ref.get(k, 0.0)
+            if abs(wt - expect) > tol * max(4, math.sqrt(n)):
+                raise Violation(f"{P}-DIST",
+                                f"{what}: values {self.qdrive._fmt_keys(keys)} have probability {wt:.7f}"
+                                f"{' over the seeds' if int_seed else ''} but {expect:.7f} by the Born rule\n{ref_c}")
+        ctx.decide("case", repr(ref_c), cfg.describe(), api, int_seed, seed_value, reps, n)
+        ctx.nontrivial = n >= 2
+        ctx.steps += n
+        ctx.state(("step-sampling", api, int_seed, kind, split, len(qs), min(n, 16)))
+        ctx.sample = {"entry": what, "circuit": str(ref_c).splitlines()[:16], "leaves_explored": n,
+                      "generators_made_from_the_integer": made, "draws_repeated_from_one_stream": replayed}
 
     def _sample_from_amplitudes(self, tape, ctx: Ctx) -> None:
         cirq = self.cirq
